@@ -2,6 +2,7 @@
 from .domain import IntV, RefV, VecV
 from .interp import Interp, State
 from .models import Models
+from . import models2  # noqa: F401  (installs the second tranche of std contracts)
 
 
 def field_bits(fixed, sb, eb, value):
